@@ -333,6 +333,10 @@ def write_evidence(pid, tier, seed, coverage, assumptions, wall, violations):
         # keep the file valid for the proof level through the generic keys; the run is a violation anyway
         coverage["discharged_count"] = coverage.pop("discharged", 0)
         coverage["obligations_count"] = coverage.pop("obligations", 0)
+    if ORACLE_CHECKS["idna_sane"] or ORACLE_CHECKS["idna_roundtrip"]:
+        coverage["oracle_assumptions_checked"] = {
+            "IdnaSaneAt": ORACLE_CHECKS["idna_sane"], "IdnaRoundTripAt": ORACLE_CHECKS["idna_roundtrip"],
+            "failures": ORACLE_CHECKS["failures"][:20], "failure_count": len(ORACLE_CHECKS["failures"])}
     ev = {
         "property_id": pid,
         "tier": tier,
@@ -400,6 +404,49 @@ def oracle_value(fn, arg):
     raise Infra("unknown oracle " + fn)
 
 
+# Run-time check of the ASSUMPTIONS the IDN theorems make about the third-party oracles (C16Idn.lean):
+#   IdnaAnswerSane a   : a is non-empty reg-name text (RFC 3986 unreserved / sub-delims without upper-case letters, or
+#                        '%' + two lower-case hex digits)          [written from the RFC, not from yarl's NOT_REG_NAME]
+#   IdnaRoundTripAt a  : an ASCII decoding of a is a itself; a non-ASCII decoding d encodes back to a
+# Every answer the real libraries give during a run is checked; failures are reported in the evidence (they limit the
+# domain of the Idn theorems, they are not violations of yarl by themselves).
+_SANE = re.compile(r"(?:[a-z0-9\-._~!$&'()*+,;=]|%[0-9a-f]{2})+\Z")
+ORACLE_CHECKS = {"idna_sane": 0, "idna_roundtrip": 0, "failures": []}
+
+
+def _idna_encode_like_yarl(host):
+    import idna
+    try:
+        return idna.encode(host, uts46=True).decode("ascii")
+    except UnicodeError:
+        return host.encode("idna").decode("ascii").lower()
+
+
+def check_oracle_assumption(fn, arg, val):
+    if val == "!":
+        return
+    try:
+        a = dec(val)
+        if fn in ("idnaEnc", "idnaEncStd"):
+            ORACLE_CHECKS["idna_sane"] += 1
+            txt = a.lower() if fn == "idnaEncStd" else a
+            if not _SANE.match(txt):
+                ORACLE_CHECKS["failures"].append({"assumption": "IdnaSaneAt", "oracle": fn, "host": ascii(arg), "answer": ascii(a)})
+        elif fn in ("idnaDec", "idnaDecStd"):
+            ORACLE_CHECKS["idna_roundtrip"] += 1
+            if a.isascii():
+                ok = a == arg
+            else:
+                try:
+                    ok = _idna_encode_like_yarl(a) == arg
+                except UnicodeError:
+                    ok = False
+            if not ok:
+                ORACLE_CHECKS["failures"].append({"assumption": "IdnaRoundTripAt", "oracle": fn, "host": ascii(arg), "answer": ascii(a)})
+    except Exception as e:  # never let the assumption check disturb the run
+        ORACLE_CHECKS["failures"].append({"assumption": "check-error", "oracle": fn, "host": ascii(arg), "answer": repr(e)})
+
+
 def run_model_with_oracles(ops, max_rounds=14):
     """Run the driver; answer `!O:<fn>:<arg>` misses by prepending `orc` lines and re-running.
     Returns (final ops incl. orc lines, outputs aligned with them, number of oracle entries)."""
@@ -414,6 +461,7 @@ def run_model_with_oracles(ops, max_rounds=14):
                 _, fn, arg = r.split(":", 2)
                 if (fn, arg) not in known:
                     known[(fn, arg)] = oracle_value(fn, dec(arg))
+                    check_oracle_assumption(fn, dec(arg), known[(fn, arg)])
                     orc_lines.append(f"orc\t{fn}\t{arg}\t{known[(fn, arg)]}")
                     new = True
         if not new:
